@@ -1,5 +1,5 @@
 import KcpVerif.Lemmas.KcpWindow
-import KcpVerif.Lemmas.KcpWire
+import KcpVerif.Lemmas.KcpWndWire
 import KcpVerif.Lemmas.KcpAdmit
 import KcpVerif.Lemmas.KcpCwnd
 import KcpVerif.Lemmas.KcpClosed
